@@ -153,7 +153,10 @@ def plan(seed, subbatch):
             ops += world.schedule(feed, seg, sizes, [])
         last_ts = seg[-1][0] if seg else start
         last_close = seg[-1][4] if seg else 100.0
-        t0 = last_ts - last_ts % tf_s + 2 * tf_s          # bucket aligned start of the probe sequence
+        # bucket aligned start of the probe sequence, always the same number of buckets after the bucket the
+        # history ended in (whether or not its last candle sat exactly on a bucket edge: with gap filling and no
+        # settling stretch that number is part of what the first measured append has to compute)
+        t0 = -(-last_ts // tf_s) * tf_s + tf_s
         base = max(last_close, 60 * tick)
         gap_at = (lambda k: 3 * tf_s * max(0, (k - settle_n + 1) // 2)) if probe_gap else (lambda k: 0)
         probe = [[t0 + (k + 1) * base_s + gap_at(k), round(base + po * tick, 6), round(base + ph * tick, 6),
